@@ -99,8 +99,7 @@ def writerOp (d : St) (x : Side) (id : Nat) (f : Mem → LBuf → Option (Mem ×
       let s' := setStream { d.s with m := m' } x id (fun y => { y with send := l' })
       ({ d with s := s' }, s!"ok wlen={l'.len}" ++ suffix s' x id)
 
-def step (d : St) (line : String) : St × String :=
-  if d.dead then (d, "dead") else
+def step1 (d : St) (line : String) : St × String :=
   match Drv.words line with
   | "init" :: qc :: cls =>
     ({ s := { m := Mem.create (cls.map Drv.C06.parseCls), qcap := Drv.nat! qc, held := cls.map (fun _ => []) },
@@ -167,5 +166,12 @@ def step (d : St) (line : String) : St × String :=
     let (s', p', r) := poolPut d.s d.pool (Drv.nat! id)
     ({ d with s := s', pool := p', heldP := d.heldP.filter (· ≠ Drv.nat! id) }, s!"{r} pooled={p'.ring.length}" ++ gsuffix s')
   | _ => (d, "bad-op")
+
+def step (d : St) (line : String) : St × String :=
+  if d.dead then (d, "dead") else
+  match Drv.words line with
+  | op :: "a" :: id :: _ =>
+    if op ≠ "pput" ∧ d.pool.ring.contains (Drv.nat! id) then (d, "inpool") else step1 d line
+  | _ => step1 d line
 
 end Drv.C07
